@@ -43,11 +43,22 @@ func fnDiscard(ctx *cmdContext, args map[string]any) (output respValue, err erro
 	return
 }
 
-func isAbortedExecUnlocked(cs *clientState) bool {
+// Has a key watched by cs changed? The caller owns the database held and, because
+// keys can be watched in any database, the multi data store lock: another database
+// is locked for the time its key is looked at.
+func isAbortedExecUnlocked(cs *clientState, held *dataStore) bool {
 	for watch, id := range cs.copyWatches() {
-		// caller holds exclusive lock, so go directly to the data store for this check
-		if watch.ds.hasChangedUnlocked(watch.key, id) {
-			return true
+		if watch.ds == held {
+			if watch.ds.hasChangedUnlocked(watch.key, id) {
+				return true
+			}
+		} else {
+			watch.ds.mu.Lock()
+			changed := watch.ds.hasChangedUnlocked(watch.key, id)
+			watch.ds.mu.Unlock()
+			if changed {
+				return true
+			}
 		}
 	}
 	return false
@@ -68,6 +79,12 @@ func fnExec(ctx *cmdContext, args map[string]any) (output respValue, err error) 
 		return
 	}
 
+	// a transaction can reach into other databases (a queued SELECT, keys watched before a
+	// SELECT, FLUSHALL): whoever takes a second database lock holds the multi data store
+	// lock, or two transactions entering each other's database would wait forever
+	multiDataStoreLock.Lock()
+	defer multiDataStoreLock.Unlock()
+
 	// take complete ownership of the data store
 	ctx.dsc.acquireExclusive()
 	defer ctx.dsc.releaseExclusive()
@@ -77,7 +94,7 @@ func fnExec(ctx *cmdContext, args map[string]any) (output respValue, err error) 
 	defer ctx.cs.setMultiInProgress(false)
 
 	// check the watches; if anything has changed, return null
-	if isAbortedExecUnlocked(ctx.cs) {
+	if isAbortedExecUnlocked(ctx.cs, ctx.dsc.ds) {
 		// the transaction is over either way: back to normal mode, nothing watched
 		ctx.cs.clearWatches()
 		ctx.cs.cmdQueue = nil
